@@ -172,8 +172,8 @@ def oc_family(tier):
     token.  lelwel itself filters the accepted ones.  quick: every (first, last) pair once with the
     contexts rotating (pairwise coverage); thorough: the full product."""
     firsts = ["A B", "A B C", "t B", "A u", "A (B | C) D", "A [B] C", "A B* C", "<1 A B 1>x C", "A @n B",
-              "A ^ B", "A ~ B C", "A B ~ C", "A !1 B", "(A | C) B* D", "A B+ C"]
-    lasts = ["A C", "[C]", "A*", "A", "t C", "C", "A [C]", "()", "C D"]
+              "A ^ B", "A ~ B C", "A B ~ C", "A !1 B", "(A | C) B* D", "A B+ C", "e B"]
+    lasts = ["A C", "[C]", "A*", "A", "t C", "C", "A [C]", "()", "C D", "e C"]
     ctxs = [("sib", "s: r t2;\nr: %s;\nt2: A D;\n"), ("mid", "s: P r Q;\nr: %s;\n"),
             ("pre", "s: r Q;\nr: P (%s);\n"), ("loop", "s: (r)* D;\nr: %s;\n"), ("start", "s: %s;\n"),
             ("elided", "s: r+ D;\nr^: %s;\n"), ("create", "s: P <1 r 1>y Q;\nr: %s;\n"),
@@ -200,7 +200,9 @@ def oc_family(tier):
         if True:
             if True:
                 body = "%s / %s" % (f, l)
-                text = "token A B C D P Q W;\nskip W;\nstart s;\n" + (ct % body)
+                text = "token A B C D P Q N M W;\nskip W;\nstart s;\n" + (ct % body)
+                if " e " in " " + body + " ":
+                    text += "e: e M e | N;\n"
                 if " t " in " " + body + " ":
                     text += "t: A;\n"
                 if " u " in " " + body + " ":
